@@ -6,6 +6,7 @@ import (
 	"go/types"
 	"os"
 	"path/filepath"
+	"regexp"
 	"sort"
 	"strconv"
 	"strings"
@@ -54,6 +55,31 @@ func main() {
 	if err != nil {
 		fmt.Println("ENGINE: cannot load the working tree:", err)
 		os.Exit(2)
+	}
+	for _, d := range ld.droppedContracts {
+		// "path:line: reason"
+		var key, layer string
+		var props []string
+		if m := regexp.MustCompile(`^(\S*verif_contracts\.go):(\d+): `).FindStringSubmatch(d); m != nil {
+			var line int
+			fmt.Sscanf(m[2], "%d", &line)
+			if cf, err := parseContractFile(m[1]); err == nil {
+				for _, c := range cf.Contracts {
+					if c.Line == line {
+						key, layer, props = c.Key, c.Layer, c.Props
+					}
+				}
+			}
+		}
+		msg := fmt.Sprintf("contract of %s dropped: its predicates no longer type-check against the working tree (%s)", key, d)
+		run.Stale = append(run.Stale, msg)
+		owned := false
+		for _, p := range props {
+			owned = owned || p == *prop
+		}
+		if layer != "H" && owned {
+			run.engineErr = append(run.engineErr, msg)
+		}
 	}
 	run.only = *only
 	cmd := fmt.Sprintf("bin/vcheck -prop %s -tier %s", *prop, *tier)
